@@ -41,8 +41,11 @@ def run(ctx):
                "an unsolicited response is only sent while the controller has nothing outstanding (otherwise it is "
                "indistinguishable on the wire from the response to the racing request)",
                "requests are issued on an established or fully lost connection, not in the middle of pair-verify")
-    ctx.tlc("ip/IpReq", "IpReq_MCq.cfg" if not ctx.thorough else "IpReq_MC.cfg",
-            label="exhaustive request plane", timeout=1800, coverage=not ctx.thorough, require_cover=not ctx.thorough)
+    ctx.tlc("ip/IpReq", "IpReq_MCq.cfg" if not ctx.thorough else "IpReq_MCt.cfg",
+            label="exhaustive request plane", timeout=3400, coverage=False, require_cover=False)
+    # vacuity guard: every action fires in a short random exploration of the richest configuration
+    ctx.tlc("ip/IpReq", "IpReq_MC.cfg", simulate="num=4000", depth=40, seed=ctx.seed, workers=4,
+            label="simulate with coverage (vacuity guard)", timeout=600)
     ctx.tlc("ip/IpReq", "IpReq_MCq_L2.cfg", label="exhaustive request plane, semaphore capacity 2 (plain connection class)",
             timeout=1800, coverage=False, require_cover=False)
     ctx.tlc("ip/IpReq", "IpReq_Live.cfg", label="liveness NoHang under fairness", timeout=900, coverage=False, require_cover=False)
